@@ -299,6 +299,22 @@ pub fn run(tier: Tier) -> i32 {
             }
         }
     }
+    // every combination of the four lane-status bits of the detector field (and with the upper status bits set), one
+    // RDH each: the views show the most severe one
+    for fmt in [0u8, 2] {
+        let mut pk = Vec::new();
+        for v in 0..32u32 {
+            let mut r = Rdh::base();
+            r.data_format = fmt;
+            r.pages_counter = v as u16;
+            r.detector_field = (v & 0xF) | if v >= 16 { 0x0700_0030 } else { 0 };
+            pk.push(Packet::framed(r, payload::pack(&[words::ihw(0x7), words::data_word(0x21, [0x42; 9])], fmt)));
+        }
+        let bytes = stream::to_bytes(&pk);
+        for view in ["its-readout-frames", "its-readout-frames-data", "rdh"] {
+            cases.push(Case { label: format!("detector-field lane status nibble sweep fmt {fmt}"), bytes: bytes.clone(), view, filter: None, truth_kinds: None });
+        }
+    }
     for w in witnesses() {
         let s = grammar::interleave(&w.links, &w.order);
         let bytes = s.bytes();
@@ -338,7 +354,7 @@ pub fn run(tier: Tier) -> i32 {
     rep.cov("evaluations", json!(cases.len() * 2));
     rep.cov("distinct_nontrivial", json!(cases.len()));
     rep.cov("exhaustive", json!(true));
-    rep.cov("rule", json!("alphabet streams (8 RDH variants: versions 6/7, stop 0/1, 7 layer/stave pairs, 8 link ids, 8 trigger kinds, 8 detector-field patterns, orbit / BC extremes; words: 2 IHW, 32 TDH flag/trigger combinations, 24 TDT and 12 DDW0 lane-fault patterns, CDW, 9 data word ids) x data formats 0 / 2 / alternating within one batch x 2 (6) value variants x 3 views x 4 filters x {styled, -d}; 6 witnesses x 3 views with ground-truth word types. Every row is compared token by token with the model's decode at that offset"));
+    rep.cov("rule", json!("alphabet streams (8 RDH variants: versions 6/7, stop 0/1, 7 layer/stave pairs, 8 link ids, 8 trigger kinds, 8 detector-field patterns, orbit / BC extremes; words: 2 IHW, 32 TDH flag/trigger combinations, 24 TDT and 12 DDW0 lane-fault patterns, CDW, 9 data word ids) x data formats 0 / 2 / alternating within one batch x 2 (6) value variants x 3 views x 4 filters x {styled, -d}; all 16 lane-status nibbles of the detector field (with and without the upper status bits) x 3 views; 6 witnesses x 3 views with ground-truth word types. Every row is compared token by token with the model's decode at that offset"));
     rep.sample(json!({"row": "4A: TDH [03 1A 00 00 75 D5 7D 0B 00 E8] SOC Data! 192796021_ 0"}));
     rep.assume("spacing is normalised (tokens compared); the colour / style sequences are stripped, not judged");
     rep.finish()
